@@ -146,7 +146,7 @@ class TokenizerAnalysis:
             s.gen = I.methods[cands[0].func.attr]
             s.gen_call = cands[0]
         loops = [n for n in s.gen.body if isinstance(n, ast.While)]
-        if len(loops) != 1 or any(isinstance(n, (ast.For, ast.While)) for st in s.gen.body for n in ast.walk(st) if n is not loops[0] and not isinstance(st, ast.While)):
+        if len(loops) != 1:
             raise AnalysisError('token generator %s: expected exactly one top-level `while` loop' % s.gen.name)
         loop = loops[0]
         if not (isinstance(loop.test, ast.Constant) and loop.test.value in (True, 1)):
@@ -657,10 +657,14 @@ class TokenizerAnalysis:
                 if sig is not None:
                     if sig[0] == 'break':
                         ex = 'break'
-                        for q2, sig2 in s.I.block(s.post_stmts, q):
-                            if sig2 is not None and sig2[0] not in ('return',):
-                                raise Unsupported('control flow %s after the token loop' % (sig2,))
-                            results.append((q2, 'break'))
+                        try:
+                            for q2, sig2 in s.I.block(s.post_stmts, q.clone()):
+                                if sig2 is not None and sig2[0] not in ('return',):
+                                    raise Unsupported('control flow %s after the token loop' % (sig2,))
+                                results.append((q2, 'break'))
+                        except Unsupported as exc:
+                            q.mark_imprecise('statements after the token loop are outside the modelled subset (%s)' % exc)
+                            results.append((q, 'break'))
                         continue
                     elif sig[0] == 'return':
                         ex = 'return'
